@@ -4,6 +4,7 @@ package main
 
 import (
 	"bufio"
+	"encoding/base64"
 	"encoding/json"
 	"fmt"
 	"io"
@@ -166,15 +167,15 @@ func implPairs(h caseHead) map[string]any {
 }
 
 var implOps = map[string]func(h caseHead, raw []byte) map[string]any{
-	"c01": func(h caseHead, raw []byte) map[string]any { return implPairs(h) },
-	"c02": func(h caseHead, raw []byte) map[string]any { return implC02(h) },
-	"pipe": implPipe,
-	"fuzz": implFuzz,
-	"hist": implHist,
-	"c03":  implC03,
-	"cli":  implCli,
-	"c16":  implC16,
-	"c13":  implC13,
+	"c01":    func(h caseHead, raw []byte) map[string]any { return implPairs(h) },
+	"c02":    func(h caseHead, raw []byte) map[string]any { return implC02(h) },
+	"pipe":   implPipe,
+	"fuzz":   implFuzz,
+	"hist":   implHist,
+	"c03":    implC03,
+	"cli":    implCli,
+	"c16":    implC16,
+	"c13":    implC13,
 	"report": implReport,
 	"c14":    implC14,
 	"c05":    implC05,
@@ -284,6 +285,19 @@ func implPipe(h caseHead, raw []byte) map[string]any {
 func implFuzz(h caseHead, raw []byte) map[string]any {
 	var ph pipeHead
 	json.Unmarshal(raw, &ph)
+	var b64 struct {
+		ProfileB64 string `json:"profileB64"`
+		DataB64    string `json:"dataB64"`
+	}
+	json.Unmarshal(raw, &b64)
+	if b64.ProfileB64 != "" {
+		b, _ := base64.StdEncoding.DecodeString(b64.ProfileB64)
+		h.Profile = string(b)
+	}
+	if b64.DataB64 != "" {
+		b, _ := base64.StdEncoding.DecodeString(b64.DataB64)
+		h.Data = string(b)
+	}
 	res := map[string]any{}
 	type ret struct {
 		kind string
@@ -413,6 +427,8 @@ type c03Head struct {
 		ReportSchema  string `json:"reportSchema"`
 		LexicalSchema string `json:"lexicalSchema"`
 	} `json:"config"`
+	Entry *int `json:"entry"`
+	Debug bool `json:"debug"`
 }
 
 type clockAt struct{ t time.Time }
@@ -433,8 +449,28 @@ func implC03(h caseHead, raw []byte) map[string]any {
 				err = fmt.Errorf("panic: %v", r)
 			}
 		}()
-		rep, err = pkg.ValidateWithConfiguration(h.Profile, h.Data, false, nil, clockAt{t}, rc)
+		entry := 2
+		if ch.Entry != nil {
+			entry = *ch.Entry
+		}
+		var compiled *regoPrepared
+		if entry == 1 || entry == 3 {
+			if compiled, err = pkg.CompileProfile(h.Profile, ch.Debug, nil); err != nil {
+				return
+			}
+		}
+		switch entry {
+		case 0:
+			rep, err = pkg.Validate(h.Profile, h.Data, ch.Debug, nil)
+		case 1:
+			rep, err = pkg.ValidateCompiled(compiled, h.Data, ch.Debug, nil)
+		case 3:
+			rep, err = pkg.ValidateCompiledWithConfiguration(compiled, h.Data, ch.Debug, nil, clockAt{t}, rc)
+		default:
+			rep, err = pkg.ValidateWithConfiguration(h.Profile, h.Data, ch.Debug, nil, clockAt{t}, rc)
+		}
 	}()
+	before := time.Now().Add(-2 * time.Minute)
 	if err != nil {
 		res["outcome"] = "error"
 		res["err"] = err.Error()
@@ -452,6 +488,14 @@ func implC03(h caseHead, raw []byte) map[string]any {
 	res["hasResult"] = rv.HasResult
 	if rv.DateCreated != nil {
 		res["dateCreated"] = *rv.DateCreated
+		if ch.Config.Time == "NOW" {
+			// wall clock: must be a well-formed time between the start of the call (minus slack) and now
+			if d, perr := time.Parse(time.RFC3339, *rv.DateCreated); perr == nil && d.After(before) && !d.After(time.Now().Add(time.Minute)) {
+				res["dateCreated"] = "NOW"
+			} else {
+				res["dateCreated"] = "not the current time: " + *rv.DateCreated
+			}
+		}
 	} else {
 		res["dateCreated"] = nil
 	}
